@@ -10,7 +10,7 @@ RULE = ("traces = one per (topology, start node, callback mode) for every topolo
         "Trace_ChainRec; non-trivial = subtree of the start node has at least 3 nodes; distinct by (topology, start, mode)")
 
 
-def record(P, start, mode, api, pre=None, ed=None, copy_after=False, nones=False, handles=False):
+def record(P, start, mode, api, pre=None, ed=None, copy_after=False, nones=False, handles=False, negkey=False):
     from swcgeom.core import Tree
     from swcgeom.core.swc_utils import traverse
     events, counter = [], [0]
@@ -61,12 +61,13 @@ def record(P, start, mode, api, pre=None, ed=None, copy_after=False, nones=False
         if api == 0:
             ret = traverse((t.id(), t.pid()), root=start, **kw)
         else:
-            ret = t.traverse(root=start, **kw) if api == 1 else t.node(start).traverse(**kw)
+            ret = t.traverse(root=start, **kw) if api == 1 else (t[start - n] if negkey else t.node(start)).traverse(**kw)
     elif api == 0:
         ret = traverse((ids, pids), root=start, **kw)
     else:
         t = Tree(n, source=lib.SRC, id=ids, pid=pids)
-        ret = t.traverse(root=start, **kw) if api == 1 else t.node(start).traverse(**kw)
+        # (the start node's handle may have been obtained with a negative key: tree[start - n] is the same node)
+        ret = t.traverse(root=start, **kw) if api == 1 else (t[start - n] if negkey else t.node(start)).traverse(**kw)
     events.append(["R", val(ret)])
     return events
 
@@ -76,7 +77,7 @@ def execute(c):
     events = []
     try:
         events = record(c["P"], c["start"], c["mode"], api, c.get("pre"), c.get("ed"), lib.vid(c) % 2 == 1, nones=c.get("nones", lib.vid(c) % 4 == 2),
-                        handles=(api != 0 and c.get("nones") is None and lib.vid(c) % 4 == 3))
+                        handles=(api != 0 and c.get("nones") is None and lib.vid(c) % 4 == 3), negkey=(lib.vid(c) % 2 == 0))
     except RecursionError:
         return {"events": [], "err": "RecursionError"}
     return {"events": events}
